@@ -43,15 +43,20 @@ def _plan(draw, max_rows):
     big = draw(st.integers(0, 9)) == 0
     if big:
         # > 16 rows grouped by one key without missing cells: where an unstable sort inside grouping shows
-        n = draw(st.integers(17, 40))
+        n = draw(st.integers(17, 40)) if max_rows < 40 or draw(st.booleans()) else draw(st.sampled_from(gen.BIG_SIZES))
         nk = 1
     cols = []
     for j in range(nk):
         kind = draw(st.sampled_from(KEY_KINDS))
         mode = "tight" if big else draw(st.sampled_from(["tight", "tight", "tight", "pool"]))
-        cols.append({"name": f"g{j}", "kind": kind, "vals": draw(gen.values(kind, n, mode=mode, na="none" if big else None))})
-    cols.append({"name": "xi", "kind": "i", "vals": [draw(st.integers(-1000, 1000)) for _ in range(n)]})
-    cols.append({"name": "xf", "kind": "f", "vals": [draw(st.sampled_from([gen.NAN, -3.0, -0.0, 0.0, 0.5, 1.0, 2.5, 1e6])) for _ in range(n)]})
+        vals = draw(gen.big_values(kind, n)) if n > 40 else draw(gen.values(kind, n, mode=mode, na="none" if big else None))
+        cols.append({"name": f"g{j}", "kind": kind, "vals": vals})
+    if n > 40:
+        cols.append({"name": "xi", "kind": "i", "vals": [(i * 7919) % 2001 - 1000 for i in range(n)]})
+        cols.append({"name": "xf", "kind": "f", "vals": [[gen.NAN, -3.0, -0.0, 0.0, 0.5, 1.0, 2.5, 1e6][(i * 5 + i // 7) % 8] for i in range(n)]})
+    else:
+        cols.append({"name": "xi", "kind": "i", "vals": [draw(st.integers(-1000, 1000)) for _ in range(n)]})
+        cols.append({"name": "xf", "kind": "f", "vals": [draw(st.sampled_from([gen.NAN, -3.0, -0.0, 0.0, 0.5, 1.0, 2.5, 1e6])) for _ in range(n)]})
     h = draw(st.sampled_from(HELPERS))
     hx = {"helper": h, "col": draw(st.sampled_from(["xi", "xf"])), "args": {}}
     if h not in ("all", "any") and draw(st.booleans()):
